@@ -193,8 +193,10 @@ def concrete_check(mod, spec, vals, w=None):
     T.PyAlg.fscale = 0.0
     try:
         cases = ref_cases(w, text, lv, False)
+    except (RX.RefError, ArithmeticError, ValueError):
+        return "skip"       # the exact value does not exist / the reference does not cover the script
     except Exception as e:  # noqa
-        return "skip"
+        raise common.HarnessError("reference interpreter failed on %r: %r" % (text, e))
     (rconds, routcome, it) = cases[0]
     if not it.dom.ok or T.PyAlg.overflow:
         return "skip"
